@@ -22,13 +22,19 @@ BaseProg ==
   (FA :> [structs |-> ("S" :> << Fd(1, "x", "i32", TRUE), Fd(2, "y", "string", FALSE) >>) @@ ("T" :> << Fd(1, "z", "list<i32>", FALSE) >>) @@ ("R" :> << Fd(1, "r", "i32", FALSE) >>)
                       \* V is rendered as a union (no required fields), E as an exception
                       @@ ("V" :> << Fd(1, "va", "i32", FALSE), Fd(2, "vb", "string", FALSE) >>) @@ ("E" :> << Fd(1, "why", "string", FALSE) >>),
-          services |-> ("K" :> {"f", "g"})])
+          \* K extends P, and P declares a method of K's name as well (ParentOf below; rendered as "extends" while the parent is in the file)
+          services |-> ("K" :> {"f", "g"}) @@ ("P" :> {"g"})])
   @@ (FB :> [structs |-> ("U" :> << Fd(1, "u", "i64", FALSE) >>) @@ ("R" :> << Fd(1, "r", "i32", FALSE) >>), services |-> ("L" :> {"h"}) @@ ("M" :> {"p"})])
 
 FileBase(f) == IF f = FB THEN "b.thrift" ELSE f
 BaseNameOf(f) == IF BaseNameBug THEN FileBase(f) ELSE f
 MethodFileOf(f) == IF MethodPathBug THEN FileBase(f) ELSE f
-AllSvcs == {"K", "L", "M", "Z", "Y"}
+AllSvcs == {"K", "L", "M", "Z", "Y", "P"}
+\* service inheritance: a method removed from a service is removed, whatever the services it extends declare
+ParentOf == ("K" :> "P") @@ ("M" :> "L")
+ChildrenOf(s) == { c \in DOMAIN ParentOf : ParentOf[c] = s }
+\* names a service may gain: a fresh one, or one its children declare (a method "moved up")
+Gainable(s) == {"added"} \cup UNION { UNION { BaseProg[f].services[c] : f \in { g \in DOMAIN BaseProg : c \in DOMAIN BaseProg[g].services } } : c \in ChildrenOf(s) }
 
 \* TI = typedef i32, TL = typedef list<i32>, defined alike in every file: a type change is a change of the type NAME
 \* (string and binary share a wire type and are different types all the same)
@@ -59,7 +65,7 @@ Edit ==
      \/ \E f \in DOMAIN new : "N" \notin DOMAIN new[f].structs /\ SetStruct(f, "N", << Fd(1, "q", "i32", TRUE) >>)  \* new struct (even with a required field)
      \/ \E f \in DOMAIN new : \E s \in DOMAIN new[f].services :
           \/ \E m \in new[f].services[s] : SetSvc(f, s, new[f].services[s] \ {m})                                   \* method removed
-          \/ "added" \notin new[f].services[s] /\ SetSvc(f, s, new[f].services[s] \cup {"added"})                  \* method added
+          \/ \E a \in Gainable(s) : a \notin new[f].services[s] /\ SetSvc(f, s, new[f].services[s] \cup {a})         \* method added
           \/ new' = [new EXCEPT ![f].services = KeepKeys(@, DOMAIN @ \ {s})]                                        \* service removed
      \/ \E f \in DOMAIN new : "Z" \notin DOMAIN new[f].services /\ SetSvc(f, "Z", {"a"})                             \* service added
      \/ \E f \in DOMAIN new : new' = KeepKeys(new, DOMAIN new \ {f})                                                 \* file deleted
@@ -76,6 +82,11 @@ IdenticalIsSilent == new = BaseProg => SpecDiag(BaseProg, new) = {}
 Ser(P) == [ f \in DOMAIN P |-> [ structs |-> P[f].structs, services |-> [ s \in DOMAIN P[f].services |-> SetToSeq(P[f].services[s]) ] ] ]
 Hash == Cardinality(SpecDiag(BaseProg, new)) * 7 + nedits * 3 + Cardinality(DOMAIN new)
 \* every program pair with two or more diagnostics (where reports can interact) and a sample of the others
-EmitCase == ((Cardinality(SpecDiag(BaseProg, new)) >= 2 /\ (TLCGet("distinct") + Hash) % MultiMod = 0)
-             \/ (TLCGet("distinct") + Hash) % EmitMod = EmitPick) => PrintT(<<"CASE", ToJson([old |-> Ser(BaseProg), new |-> Ser(new)])>>)
+\* a method that left a service while a service it extends declares one of that name: always a case
+MovedUp == \E f \in DOMAIN new \cap DOMAIN BaseProg : \E c \in DOMAIN ParentOf \cap DOMAIN new[f].services \cap DOMAIN BaseProg[f].services :
+              /\ ParentOf[c] \in DOMAIN new[f].services
+              /\ (BaseProg[f].services[c] \ new[f].services[c]) \cap new[f].services[ParentOf[c]] # {}
+EmitCase == ((MovedUp /\ (nedits = 1 \/ (TLCGet("distinct") + Hash) % 3 = 0))
+             \/ (Cardinality(SpecDiag(BaseProg, new)) >= 2 /\ (TLCGet("distinct") + Hash) % MultiMod = 0)
+             \/ (TLCGet("distinct") + Hash) % EmitMod = EmitPick) => PrintT(<<"CASE", ToJson([old |-> Ser(BaseProg), new |-> Ser(new), parents |-> ParentOf])>>)
 =============================================================================
